@@ -52,6 +52,29 @@ func uvarintFromBuf(r *bufio.Reader) (uint64, error) {
 	return x, err
 }
 
+// bytesFromBuf reads exactly n bytes, however many reads that takes and
+// whatever the size of the reader's internal buffer. The result grows as
+// the data arrives, so a corrupt length cannot force a huge allocation.
+func bytesFromBuf(r *bufio.Reader, n uint64) ([]byte, error) {
+	const chunk = 4096
+	var buf []byte
+	for uint64(len(buf)) < n {
+		k := n - uint64(len(buf))
+		if k > chunk {
+			k = chunk
+		}
+		old := len(buf)
+		buf = append(buf, make([]byte, k)...)
+		if _, err := io.ReadFull(r, buf[old:]); err != nil {
+			if err == io.EOF {
+				err = io.ErrUnexpectedEOF
+			}
+			return nil, err
+		}
+	}
+	return buf, nil
+}
+
 func varintToBytes(p []byte, x int64) int {
 	return uvarintToBytes(p, i64ToU64(x))
 }
@@ -166,11 +189,7 @@ func valueFromBuf(r *bufio.Reader) (value, error) {
 		if err != nil {
 			return nil, err
 		}
-		p, _ := r.Peek(int(k))
-		if uint64(len(p)) < k {
-			return nil, io.ErrUnexpectedEOF
-		}
-		_, err = r.Discard(len(p))
+		p, err := bytesFromBuf(r, k)
 		return string(p), err
 
 	case typeBOOL:
